@@ -1047,6 +1047,8 @@ impl<const N: usize> World<N> {
                         Err(format!("element {} is device-{} but the caller supplied it as {}", k, if e.write { "writable" } else { "readable" }, if w.2 { "an output" } else { "an input" }))
                     } else if (s.dir == Dir::FromDevice) != w.2 {
                         Err(format!("element {} shared with direction {:?} but role is {}", k, s.dir, if w.2 { "output" } else { "input" }))
+                    } else if s.ap != self.cfg.ap {
+                        Err(format!("element {} address {:#x} was handed out for access_platform={} while the queue runs with access_platform={}", k, e.addr, s.ap, self.cfg.ap))
                     } else {
                         Ok(())
                     }
@@ -1073,6 +1075,10 @@ impl<const N: usize> World<N> {
                     expected.push(HalEvent::Share { paddr: taddr, vaddr: v, len: l, dir: Dir::ToDevice, ap });
                     if ap != self.cfg.ap {
                         viol("C04", "table-share-ap", format!("indirect table shared with access_platform={}", ap));
+                        // C01: what the head descriptor holds is the table's address in the
+                        // other address space (bus address vs. address behind the platform's
+                        // translation), not the address at which the device finds the table.
+                        viol("C01", "table-address-space", format!("the head descriptor of chain {} points at {:#x}, which the platform handed out for access_platform={} while the queue runs with access_platform={}: not the device address of the table", token, taddr, ap, self.cfg.ap));
                     }
                 }
                 None => viol("C01", "table-not-shared", format!("indirect table address {:#x} of chain {} is not a live share", taddr, token)),
